@@ -280,3 +280,44 @@ Proof.
   destruct (parse_ace_standard (split_ws line)) as [sp|]; [|exact I].
   exact (B false sp [] (s_dstopt sp)).
 Qed.
+
+(** * whitespace: the parser sees the token list only, and the token list does not change when
+      whitespace characters are doubled, exchanged for other whitespace characters, or added at
+      either end of the line *)
+Theorem parse_depends_on_tokens c l1 l2 :
+  split_ws l1 = split_ws l2 -> parse_ace_text c l1 = parse_ace_text c l2.
+Proof. unfold parse_ace_text. intros ->. reflexivity. Qed.
+
+Lemma split_ws_aux_congr a X Y :
+  (forall cur, split_ws_aux X cur = split_ws_aux Y cur) ->
+  forall cur, split_ws_aux (a ++ X) cur = split_ws_aux (a ++ Y) cur.
+Proof.
+  intros H. induction a as [|ch a IH]; intros cur; cbn [append split_ws_aux]; [apply H|].
+  destruct (is_ws ch); [destruct (str_nonempty cur); now rewrite IH|apply IH].
+Qed.
+
+Theorem ws_double a c c' b : is_ws c = true -> is_ws c' = true ->
+  split_ws (a ++ String c (String c' b)) = split_ws (a ++ String c b).
+Proof.
+  intros Hc Hc'. unfold split_ws. apply split_ws_aux_congr. intros cur.
+  cbn [split_ws_aux]. rewrite Hc, Hc'. cbn [str_nonempty]. reflexivity.
+Qed.
+
+Theorem ws_exchange a c c' b : is_ws c = true -> is_ws c' = true ->
+  split_ws (a ++ String c b) = split_ws (a ++ String c' b).
+Proof.
+  intros Hc Hc'. unfold split_ws. apply split_ws_aux_congr. intros cur.
+  cbn [split_ws_aux]. now rewrite Hc, Hc'.
+Qed.
+
+Theorem ws_leading c b : is_ws c = true -> split_ws (String c b) = split_ws b.
+Proof. intros Hc. unfold split_ws. cbn [split_ws_aux]. rewrite Hc. reflexivity. Qed.
+
+Lemma append_empty_r (a : string) : (a ++ "")%string = a.
+Proof. induction a as [|ch a IH]; cbn; [reflexivity|now rewrite IH]. Qed.
+
+Theorem ws_trailing a c : is_ws c = true -> split_ws (a ++ String c "") = split_ws a.
+Proof.
+  intros Hc. unfold split_ws. rewrite <- (append_empty_r a) at 2. apply split_ws_aux_congr. intros cur.
+  cbn [split_ws_aux]. rewrite Hc. destruct (str_nonempty cur); reflexivity.
+Qed.
